@@ -428,6 +428,10 @@ def make_loop_handler(invariants=None):
                     head.env[nm] = fresh_int(nm)
                 else:
                     head.env[nm] = cur
+            for nm in stored:
+                cur = head.env.get(nm, None)
+                if hasattr(cur, 'havoc'):
+                    head.env[nm] = cur.havoc()         # contents are arbitrary at the loop head; the invariant constrains them
             head.pc.append(z3.And(cnt >= 0, cnt < hi - lo))
             idx = lo + cnt if not it_rev(it) else hi - 1 - cnt
             if elem is not None:
@@ -493,6 +497,10 @@ def make_loop_handler(invariants=None):
                 after.env[nm] = ZScal()
             elif is_z(cur) or isinstance(cur, int):
                 after.env[nm] = fresh_int(nm)
+        for nm in stored:
+            cur = after.env.get(nm, None)
+            if hasattr(cur, 'havoc'):
+                after.env[nm] = cur.havoc()
         if isinstance(n.target, ast.Name) and elem is None:
             after.env[n.target.id] = fresh_int(n.target.id)
         if inv is not None:
